@@ -30,45 +30,57 @@ def fl (x : Float) : String :=
   | some f => "~" ++ F64.toStr f
   | none => if x.isNaN then "~nan" else "~neg"
 
-def PI : Float := Float.ofBits 0x400921FB54442D18
-
 /-- exact double -> run-time Float (exact: mantissa < 2^53) -/
 def toFloat (x : F64.F) : Float := Float.scaleB x.m.toFloat x.e
 
-/-- the tail of `angular_similarity` -/
+/-- run-time Float -> exact double (`none`: negative / inf / NaN) -/
+def ofFloat (x : Float) : Option F64.F := F64.ofBits x.toBits.toNat
+
+/-- libm `acos` on an exact double in [0, 1] -/
+def acosF (c : F64.F) : F64.F :=
+  match ofFloat (Float.acos (toFloat c)) with
+  | some f => f
+  | none => ⟨0, 0⟩
+
+/-- the tail of `angular_similarity`: everything but `acos` through the exact model.
+    Exact text (no `~`) at the two ends where `acos` is exact in every libm (`acos(1) = 0`,
+    `acos(0) = fl(π/2)`); otherwise tier 2 -/
 def angStr (p a b : Nat) : String :=
   if a = 0 ∨ b = 0 then "0p0"
   else
-    let na := Float.sqrt a.toFloat
-    let nb := Float.sqrt b.toFloat
-    let q := p.toFloat / (na * nb)
-    let c := if q < 1.0 then q else 1.0
-    let d := 2.0 * Float.acos c / PI
-    fl (1.0 - d)
+    let c := cosArg p a b
+    let v := angTail acosF c
+    let txt := F64.SF.toStr v
+    if F64.isOne c || c.m = 0 then txt else "~" ++ txt
 
 def simStr : SimVal → String
   | .jac c u => F64.toStr (ratioF (c, u))
   | .ang p a b => angStr p a b
 
-/-- `1.0 - (1.0 - 1.0 / scaled) ** float(denom * scaled)` -/
-def biasF (sc denom : Nat) : Float :=
+/-- `1.0 - (1.0 - 1.0 / scaled) ** float(denom * scaled)` through libm `pow` -/
+def biasFloat (sc denom : Nat) : Float :=
   1.0 - Float.pow (1.0 - 1.0 / sc.toFloat) (denom * sc).toFloat
 
-/-- value of a containment result: exact when the bias factor is exactly 1.0 -/
-def contVal (c : Cont) : Except String (Sum F64.F Float) :=
+def biasF (sc denom : Nat) : F64.F :=
+  match ofFloat (biasFloat sc denom) with
+  | some f => f
+  | none => ⟨0, 0⟩
+
+/-- value of a containment result: the exact model `Cont.value` around the libm bias factor;
+    `inl` = no libm value involved (early return, or the bias factor is exactly 1.0) -/
+def contVal (c : Cont) : Except String (Sum F64.F F64.F) :=
   match c with
   | .zero => .ok (.inl F64.zero)
-  | .ratio cc d sc =>
+  | .ratio _ d sc =>
     let b := biasF sc d
-    if b == 1.0 then .ok (.inl c.unbiased)
-    else if b == 0.0 then .error "ZeroDivisionError"
+    if b.m = 0 then .error "ZeroDivisionError"
     else
-      let v := cc.toFloat / (d.toFloat * b)
-      .ok (.inr (if v >= 1.0 then 1.0 else if v <= 0.0 then 0.0 else v))
+      let v := c.value (fun _ _ => b)
+      if F64.isOne b then .ok (.inl v) else .ok (.inr v)
 
-def valStr : Sum F64.F Float → String
+def valStr : Sum F64.F F64.F → String
   | .inl f => F64.toStr f
-  | .inr x => fl x
+  | .inr x => "~" ++ F64.toStr x
 
 def contStr (c : Cont) : String :=
   match contVal c with
@@ -79,10 +91,10 @@ def avgStr (c1 c2 : Cont) : String :=
   match contVal c1, contVal c2 with
   | .ok (.inl x), .ok (.inl y) => F64.toStr (avgF x y)
   | .ok x, .ok y =>
-    let f : Sum F64.F Float → Float := fun v => match v with
-      | .inl a => toFloat a
+    let f : Sum F64.F F64.F → F64.F := fun v => match v with
+      | .inl a => a
       | .inr a => a
-    fl ((f x + f y) / 2.0)
+    "~" ++ F64.toStr (avgF (f x) (f y))
   | .error e, _ => "E." ++ e
   | _, .error e => "E." ++ e
 
@@ -118,6 +130,16 @@ def step (st : St) (line : String) : St × String :=
       if hf = 0 ∨ hf > 4 then bad
       else fin st r (Py.mkMinHash num (hfKsize hf ksize) hf seed tr 0 scaled)
     | _, _ => bad
+  | ["fsqrt", n] =>
+    -- `math.sqrt(float(n))`: validates the exact square root of the model bit for bit
+    match nat? n with
+    | some n => (st, "ok " ++ F64.toStr (F64.sqrt (F64.ofNat n)))
+    | none => bad
+  | ["fcos", p, a, b] =>
+    -- `min(float(p) / (sqrt(float(a)) * sqrt(float(b))), 1.0)`: the argument handed to acos
+    match nats? [p, a, b] with
+    | some [p, a, b] => if a = 0 ∨ b = 0 then bad else (st, "ok " ++ F64.toStr (cosArg p a b))
+    | _ => bad
   | ["compat", a, b] =>
     match two st a b with
     | some (s, o) => (st, s!"ok {b2s (isCompatible s o)}")
